@@ -1,6 +1,7 @@
 (* C17 - Mutations through Ufs equal the corresponding POSIX operations.
    Property theorems only (each closed by [exact] of a lemma proved elsewhere, followed by Print Assumptions). *)
 From Coq Require Import NArith List Bool.
+From V9 Require Shape.ShapeLib Shape.PUfs17.
 From V9 Require Import Lib.GoSem Lib.Bytes Gen.Consts Ufs.Path Ufs.Handlers Ufs.UfsProofs.
 Import ListNotations.
 Local Open Scope N_scope.
@@ -46,3 +47,10 @@ Example C17_nonvacuous :
   create_plan true [[114]] [110] (N.lor c_DMDIR 493) 0 [] None = CPlan [SMkdir [[114];[110]] 493; SOpen [[114];[110]] RDONLY false] /\
   create_plan true [[114]] [110] (N.lor c_DMSYMLINK 511) 16 [102] None = CPlan [SSymlink [102] [[114];[110]]].
 Proof. vm_compute. split; reflexivity. Qed.
+
+
+(* ---- a modelling assumption about the shape of the CURRENT source (Gen/Shape.v), re-checked on every run ---- *)
+(* toError unwraps the failing call's error with errors.As *)
+Theorem C17_source_reports_errno : ShapeLib.ufs_reports_errno = true.
+Proof. exact PUfs17.ufs_reports_errno_ok. Qed.
+Print Assumptions C17_source_reports_errno.
